@@ -67,3 +67,9 @@ def import_aotools():
     if not f.startswith(os.path.realpath(repo_path()) + os.sep):
         raise RuntimeError("aotools imported from %s, not from %s" % (f, repo_path()))
     return aotools
+
+
+if __name__ == "__main__":
+    ok = ensure_deps()
+    print("deps ok" if ok else "deps FAILED")
+    sys.exit(0 if ok else 1)
